@@ -62,4 +62,13 @@ inductive PMsg : Bytes → Msg6 → Prop where
       PMsg (t :: h :: (link ++ (peer ++ rest))) (.relay t h (some link) (some peer) os)
 end
 
+/-- the option codes of a buffer in wire order: walk the code/length/value
+triples (stops at the first incomplete header; `n` bounds the number of steps) -/
+def wireCodesN : Nat → Bytes → List Nat
+  | 0, _ => []
+  | n + 1, a :: b :: c :: e :: rest => beNat [a, b] :: wireCodesN n (rest.drop (beNat [c, e]))
+  | _ + 1, _ => []
+
+def wireCodes (d : Bytes) : List Nat := wireCodesN d.length d
+
 end Dhcp.Spec
